@@ -330,6 +330,57 @@ def c10_10(ck, prog):
         raise AnalysisBroken('disabled-watch masks: %d constant stores found, expected one in add and one in disable' % n)
 
 
+def c10_12(ck, prog, rid='C10.12'):
+    """The back-pressure counters tell their owner exactly when the guard value is crossed, in either direction."""
+    R = 'dbus/dbus-resources.c'
+    r = ck.rule(rid, 'a resource counter asks for its notify function exactly when an adjustment carries the value across '
+                'the guard, upwards or downwards: for old and new value each below, at and above the guard (9 cases, '
+                'both counters) `notify_pending` is set iff (old >= guard) != (new >= guard) (the condition is '
+                'evaluated on the CFG for each case)', 'DEC',
+                breaks='reading from a client was switched off when its queued bytes reached the limit; when the count '
+                'falls back from exactly the limit no notification is sent and the bus never reads from that healthy '
+                'client again (or: the limit is never enforced because the upward crossing is missed)', floor=18)
+    G = 10
+    for fname, vfield, gfield in (('_dbus_counter_adjust_size', 'size_value', 'notify_size_guard_value'),
+                                  ('_dbus_counter_adjust_unix_fd', 'unix_fd_value', 'notify_unix_fd_guard_value')):
+        fn = prog.fn(fname, R)
+        for old in (G - 1, G, G + 1):
+            for new in (G - 1, G, G + 1):
+                st = {'flipped': False}
+
+                def val(e, old=old, new=new, st=st):
+                    if is_member(e, vfield, 'DBusCounter'):
+                        return new if st['flipped'] else old
+                    if is_member(e, gfield, 'DBusCounter'):
+                        return G
+                    if is_member(e, 'notify_function', 'DBusCounter'):
+                        return 1
+                    if is_member(e, None, 'DBusCounter'):
+                        return 0
+                    return None
+
+                def stop(blk, ev, st=st):
+                    if ev is not None and ev['ev'] == 'assign' and is_member(ev['e']['l'], vfield, 'DBusCounter'):
+                        st['flipped'] = True
+                    return None
+                try:
+                    seen, lab = lib.symbolic_walk(fn, fn.entry, val, stop)
+                except AnalysisBroken as e:
+                    raise AnalysisBroken('%s: %s' % (fname, e))
+                if not st['flipped']:
+                    raise AnalysisBroken('%s: the adjustment of %s was not found' % (fname, vfield))
+                fired = any(ev['ev'] == 'assign' and is_member(ev['e']['l'], 'notify_pending', 'DBusCounter')
+                            and is_int(ev['e']['r']) and ev['e']['r']['v'] != 0 for ev in seen)
+                want = (old >= G) != (new >= G)
+                key = '%s:old%+d:new%+d' % (fname, old - G, new - G)
+                if fired != want:
+                    r.violation(key, fn.name, R, fn.line, 'with the value going from guard%+d to guard%+d the notification '
+                                'is %s' % (old - G, new - G, 'requested although the guard was not crossed' if fired else
+                                           'not requested although the guard was crossed'))
+                else:
+                    r.ok(key)
+
+
 def run(ck):
     ck.explanation = (
         'Static rules over dbus-transport.c, dbus-transport-socket.c, bus/driver.c, bus/connection.c: a corrupt '
@@ -344,6 +395,9 @@ def run(ck):
         c10_1(ck, prog)
         c10_9(ck, prog)
         c10_10(ck, prog)
+        c10_12(ck, prog)
+        from rules import C16
+        C16.c16_1(ck, prog, rid='C10.11', utf8_only=True)
         # a hostile descriptor packet must not leak descriptors in the bus (shared with C15.2)
         from rules.C15 import c15_2
         r6 = ck.rule('C10.6', 'descriptors received from a client are never leaked or closed twice by the loader: '
